@@ -26,6 +26,12 @@ def adaptorDouble (p : Nat × Nat) : Nat × Nat :=
 def adaptorScalarMult (p : Nat × Nat) (k : Bytes) : Nat × Nat :=
   jacToBig (scalarMultNC (adaptorScalar k) (bigToField p.1, bigToField p.2, 1))
 
+/-- the (0,0) identity convention of crypto/elliptic -/
+def ptOfXY (p : Nat × Nat) : Pt := if p.1 = 0 ∧ p.2 = 0 then none else some p
+def xyOfPt : Pt → Nat × Nat
+  | none => (0, 0)
+  | some q => q
+
 /-- `GenerateSharedSecret(priv, pub)` -/
 def ecdhM (a : Nat) (Q : Nat × Nat) : Bytes :=
   be32 (toAffineJ (scalarMultNC a (Q.1, Q.2, 1))).1
